@@ -10,6 +10,15 @@ def proj(kind, d):
 
 
 def cases(tier, rng):
+    from harness.transfer import Cfg
+    # files beyond 4 GiB: 64-bit offsets, 16-byte segment requests, packet lengths that hold exactly 1 / 2 / 3 of them
+    for imm in (False, True):
+        for nreq in (1, 2, 3):
+            for idw in (1, 2):
+                cfg = Cfg(mode=0, imm_nak=imm, src_idw=idw, dst_idw=idw, seqw=2, crc=rng.random() < 0.3, nak_limit=5, nak_ms=1000)
+                hdr = 4 + 2 * idw + 2
+                cfg.max_packet = hdr + 1 + 16 + (2 if cfg.crc else 0) + 16 * nreq
+                yield dstprops.LargeFileCase(cfg, [2 ** 32 + 1024, 2 ** 32 + 4096, 2 ** 32 + 8192][:rng.choice([2, 3])])
     for _ in range(400 if tier == "quick" else 30000):
         yield dstprops.c06_case(rng)
 
